@@ -6,7 +6,7 @@ use coap_lite::{CoapOption, CoapRequest, Packet, Subject};
 #[derive(Clone, Debug, PartialEq)]
 struct Obs { ep: u8, token: Vec<u8>, unack: u32, mid: Option<u16> }
 #[derive(Clone, Debug, PartialEq, Default)]
-struct Res { seq: u32, obs: Vec<Obs> }
+struct Res { seq: u32, base: Option<u32>, obs: Vec<Obs> }   // base: sequence number the implementation gave the resource when it was created (C15 fixes the step, not the start)
 #[derive(Clone, Debug)]
 enum Op { Reg(u8, u8, u8), Dereg(u8, u8, u8), Changed(u8, u16, bool), Ack(u8, u16) }
 
@@ -37,12 +37,13 @@ fn apply_real(s: &mut Subject<String>, op: &Op) {
         Op::Ack(ep, mid) => s.acknowledge(&req(ep, 0, 0, mid)),
     }
 }
-fn agree(s: &Subject<String>, m: &std::collections::BTreeMap<String, Res>) -> bool {
+fn agree(s: &Subject<String>, m: &mut std::collections::BTreeMap<String, Res>) -> bool {
     for p in 0..2u8 {
-        match (s.get_resource(&path(p)), m.get(&path(p))) {
+        match (s.get_resource(&path(p)), m.get_mut(&path(p))) {
             (None, None) => {}
             (Some(r), Some(mr)) => {
-                if r.sequence != mr.seq || r.observers.len() != mr.obs.len() { return false; }
+                let base = *mr.base.get_or_insert(r.sequence.wrapping_sub(mr.seq));
+                if r.sequence != base.wrapping_add(mr.seq) || r.observers.len() != mr.obs.len() { return false; }
                 for (o, mo) in r.observers.iter().zip(mr.obs.iter()) { if o.endpoint != format!("ep{}", mo.ep) || o.token != mo.token { return false; } }
             }
             _ => return false,
@@ -58,10 +59,12 @@ fn explore(limit: u8, ops: &[Op], depth: usize, hist: &mut Vec<Op>) {
         hist.push(op.clone());
         let mut s = Subject::<String>::default(); s.set_unacknowledged_limit(limit);
         let mut m = std::collections::BTreeMap::new();
-        let r = std::panic::catch_unwind(std::panic::AssertUnwindSafe(|| { for o in hist.iter() { apply_real(&mut s, o); } }));
-        if r.is_err() { found("panic", hist); }
-        for o in hist.iter() { apply_model(&mut m, limit as u32, o); }
-        if !agree(&s, &m) { found("registry-differs-from-model", hist); }
+        for o in hist.iter() {
+            let r = std::panic::catch_unwind(std::panic::AssertUnwindSafe(|| apply_real(&mut s, o)));
+            if r.is_err() { found("panic", hist); }
+            apply_model(&mut m, limit as u32, o);
+            if !agree(&s, &mut m) { found("registry-differs-from-model", hist); }
+        }
         explore(limit, ops, depth, hist);
         hist.pop();
     }
@@ -77,7 +80,7 @@ fn main() {
     // three endpoints: order after deregistration in the middle
     { let h = vec![Op::Reg(0, 0, 0), Op::Reg(1, 0, 0), Op::Reg(2, 0, 0), Op::Dereg(0, 0, 0), Op::Reg(3, 1, 0), Op::Dereg(2, 0, 0)];
       let mut s = Subject::<String>::default(); let mut m = std::collections::BTreeMap::new();
-      for o in &h { apply_real(&mut s, o); apply_model(&mut m, 10, o); if !agree(&s, &m) { found("registry-differs-from-model", &h); } } }
+      for o in &h { apply_real(&mut s, o); apply_model(&mut m, 10, o); if !agree(&s, &mut m) { found("registry-differs-from-model", &h); } } }
     // long confirmable runs at limits 10, 254, 255
     for limit in [10u8, 254, 255] {
         let mut s = Subject::<String>::default(); s.set_unacknowledged_limit(limit);
@@ -88,7 +91,7 @@ fn main() {
             let op = Op::Changed(0, i, true); h.push(op.clone());
             if std::panic::catch_unwind(std::panic::AssertUnwindSafe(|| apply_real(&mut s, &op))).is_err() { found("panic", &h[h.len() - 2..]); }
             apply_model(&mut m, limit as u32, &op);
-            if !agree(&s, &m) { println!("FOUND eviction-differs limit={} after {} confirmable rounds", limit, i + 1); std::process::exit(1); }
+            if !agree(&s, &mut m) { println!("FOUND eviction-differs limit={} after {} confirmable rounds", limit, i + 1); std::process::exit(1); }
         }
     }
     // pseudo-random longer histories (fixed generator, so a replay finds the same history again)
@@ -102,7 +105,7 @@ fn main() {
         for (i, o) in h.iter().enumerate() {
             if std::panic::catch_unwind(std::panic::AssertUnwindSafe(|| apply_real(&mut s, o))).is_err() { found("panic", &h[..=i]); }
             apply_model(&mut m, limit as u32, o);
-            if !agree(&s, &m) { println!("FOUND registry-differs-from-model limit={} {:?}", limit, &h[..=i]); std::process::exit(1); }
+            if !agree(&s, &mut m) { println!("FOUND registry-differs-from-model limit={} {:?}", limit, &h[..=i]); std::process::exit(1); }
         }
     } }
     println!("NONE");
